@@ -43,3 +43,12 @@ package offered
 //@ let $ng = result names.NewNameGenerator
 //@ optional site claim.NewServerSideCompositeSyncer($cl, $g) as ssa-syncer
 //@   assert [C06:ssa-syncer-uses-the-availability-checking-name-generator] $g == $ng
+
+// C02: claim CRDs are written through the updating applicator of the given client and nothing
+// else - every write goes through the apply options (the controllability check) it is given.
+//@ func offered.NewClientApplicator
+//@ props C02
+//@ let $app = result resource.NewAPIUpdatingApplicator
+//@ site resource.NewAPIUpdatingApplicator($cl)
+//@   assert [C02:crd-applicator-is-built-on-the-given-client] $cl == c
+//@ ensures [C02:crds-are-written-only-through-the-checking-applicator] result.Applicator == $app && result.Client == c
